@@ -100,3 +100,147 @@ def _domain_cia(n):
 
 DOMAIN = {F + 'EagerEncoder.correct_vector_size': _domain_cvs, F + 'EagerEncoder.correct_vector_bounds': _domain_cvb,
           G + 'AssignmentManagerBase._correct_is_active': _domain_cia}
+
+
+# ---- AssignmentManager.get_matrix / correct_vector: the public decode of a connection problem (C07, C10, C03) ----------
+# IMPUTED / MATRIX: what the eager encoder answers for (vector, existence) -- uninterpreted here (the encoders and
+# imputers are bounded-only, C10); these two carriers state that on *every* path through the manager the reported vector
+# and activeness are exactly the (-1 -> 0, inactive) conversion of that answer, and that `correct_vector` and
+# `get_matrix` agree (C07: one activeness contract on every path).
+CLASSES = dict(globals().get('CLASSES', {}))
+CLASSES['AssignmentManager'] = {'_encoder': 'Ref'}
+_ENC_GET = dict(params=['vector', 'existence'], types={}, returns='Tuple[List[Int],Ref]', modifies=[], assumed=True,
+                receiver='self._encoder', ensures=['result[0] == IMPUTED(vector, existence)', 'result[1] == MATRIX(vector, existence)'])
+_MGR_FUNCS = {'IMPUTED': (['List[Int]', 'Optional[Ref]'], 'List[Int]'), 'MATRIX': (['List[Int]', 'Optional[Ref]'], 'Ref')}
+_MGR_POST = {
+    'one-entry-per-variable-of-the-encoder-answer': ('property', 'len(result[0]) == len(IMPUTED(vector, existence)) and len(result[1]) == len(IMPUTED(vector, existence))'),
+    'inactive-iff-the-encoder-marked-minus-one': ('property', 'forall(i, 0, len(IMPUTED(vector, existence)), result[1][i] == (IMPUTED(vector, existence)[i] != -1))'),
+    'inactive-variables-reported-as-zero-others-unchanged': ('property', 'forall(i, 0, len(IMPUTED(vector, existence)), result[0][i] == ite(IMPUTED(vector, existence)[i] == -1, 0, IMPUTED(vector, existence)[i]))'),
+}
+CONTRACTS[G + 'AssignmentManager.get_matrix'] = dict(
+    properties=['C07', 'C10', 'C03'],
+    types={'self': 'Ref[AssignmentManager]', 'vector': 'List[Int]', 'existence': 'Optional[Ref]'},
+    returns='Tuple[Np1[Int],Np1[Bool],Ref]',
+    funcs=_MGR_FUNCS,
+    calls={'self._encoder.get_matrix': _ENC_GET, 'self._correct_is_active': G + 'AssignmentManagerBase._correct_is_active'},
+    ensures=dict(_MGR_POST, **{'matrix-is-the-encoder-answer': ('property', 'result[2] == MATRIX(vector, existence)')}),
+    modifies=[],
+)
+CONTRACTS[G + 'AssignmentManager.correct_vector'] = dict(
+    properties=['C07', 'C10', 'C03'],
+    types={'self': 'Ref[AssignmentManager]', 'vector': 'List[Int]', 'existence': 'Optional[Ref]'},
+    returns='Tuple[Np1[Int],Np1[Bool]]',
+    funcs=_MGR_FUNCS,
+    calls={'self._encoder.get_matrix': _ENC_GET, 'self._correct_is_active': G + 'AssignmentManagerBase._correct_is_active'},
+    ensures=dict(_MGR_POST),
+    modifies=[],
+)
+
+CLASSES['LazyAssignmentManager'] = {'_encoder': 'Ref'}
+for _cls in ('LazyAssignmentManager',):
+    for _m in ('get_matrix', 'correct_vector'):
+        CONTRACTS[G + f'{_cls}.{_m}'] = dict(CONTRACTS[G + f'AssignmentManager.{_m}'], types=dict(
+            CONTRACTS[G + f'AssignmentManager.{_m}']['types'], self=f'Ref[{_cls}]'))
+
+# get_conn_idx (what GraphProcessor.get_graph calls): same vector / activeness contract; the edge list is None exactly
+# when the matrix is the constraint-violation marker, else the generator's / encoder's translation of the matrix
+_CONN_POST = dict(_MGR_POST, **{
+    'violated-matrix-gives-no-edges': ('property', 'implies(VIOLATED(MATRIX(vector, existence)), result[2] is None)'),
+    'edges-are-the-translation-of-the-encoder-matrix': ('property', 'implies(not VIOLATED(MATRIX(vector, existence)), result[2] == EDGES(MATRIX(vector, existence)))'),
+})
+_CONN_FUNCS = dict(_MGR_FUNCS, VIOLATED=(['Ref'], 'Bool'), EDGES=(['Ref'], 'Optional[Ref]'))
+_IS_VIOLATED = dict(params=['matrix'], types={}, returns='Bool', modifies=[], assumed=True, receiver='self', pure_expr='VIOLATED(matrix)')
+CLASSES['AssignmentManager']['_matrix_gen'] = 'Ref'
+CONTRACTS[G + 'AssignmentManager.get_conn_idx'] = dict(
+    properties=['C07', 'C10', 'C03', 'C01'],
+    types={'self': 'Ref[AssignmentManager]', 'vector': 'List[Int]', 'existence': 'Optional[Ref]'},
+    returns='Tuple[Np1[Int],Np1[Bool],Optional[Ref]]',
+    funcs=_CONN_FUNCS,
+    calls={'self.get_matrix': G + 'AssignmentManager.get_matrix', 'self._is_violated_matrix': _IS_VIOLATED,
+           'self._matrix_gen.get_conn_idx': dict(params=['matrix'], types={}, returns='Optional[Ref]', modifies=[], assumed=True,
+                                                 receiver='self._matrix_gen', pure_expr='EDGES(matrix)')},
+    ensures=_CONN_POST,
+    modifies=[],
+)
+CONTRACTS[G + 'LazyAssignmentManager.get_conn_idx'] = dict(
+    properties=['C07', 'C10', 'C03', 'C01'],
+    types={'self': 'Ref[LazyAssignmentManager]', 'vector': 'List[Int]', 'existence': 'Optional[Ref]'},
+    returns='Tuple[Np1[Int],Np1[Bool],Optional[Ref]]',
+    funcs=_CONN_FUNCS,
+    calls={'self._encoder.get_matrix': _ENC_GET, 'self._correct_is_active': G + 'AssignmentManagerBase._correct_is_active',
+           'self._is_violated_matrix': _IS_VIOLATED,
+           'self._encoder.get_conn_idx': dict(params=['matrix'], types={}, returns='Optional[Ref]', modifies=[], assumed=True,
+                                              receiver='self._encoder', pure_expr='EDGES(matrix)')},
+    ensures=_CONN_POST,
+    modifies=[],
+)
+
+
+def _domain_manager(method, lazy):
+    def gen(n):
+        import numpy as np
+        from adsg_core.optimization.assign_enc.matrix import MatrixGenSettings, Node
+        from adsg_core.optimization.assign_enc.assignment_manager import AssignmentManager, LazyAssignmentManager
+        from adsg_core.optimization.assign_enc.encoder_registry import EAGER_ENCODERS, EAGER_IMPUTERS, LAZY_ENCODERS, LAZY_IMPUTERS
+        rng = _rng()
+        made = 0
+        while made < n:
+            src = [Node([0, 1]) if rng.random() < 0.5 else Node([1]) for _ in range(rng.randint(1, 2))]
+            tgt = [Node([0, 1]) if rng.random() < 0.6 else Node(min_conn=0) for _ in range(rng.randint(1, 2))]
+            settings = MatrixGenSettings(src=src, tgt=tgt)
+            try:
+                if lazy:
+                    mgr = LazyAssignmentManager(settings, rng.choice(LAZY_ENCODERS)(rng.choice(LAZY_IMPUTERS)()))
+                else:
+                    mgr = AssignmentManager(settings, rng.choice(EAGER_ENCODERS)(rng.choice(EAGER_IMPUTERS)()), cache=False)
+                dvs = mgr.design_vars
+            except Exception:  # noqa  (an encoder that rejects these settings: not this contract's subject)
+                continue
+            for _ in range(4):
+                vector = [rng.randint(-1, dv.n_opts + 1) for dv in dvs]      # also inactive markers and out-of-range values
+                enc = mgr.encoder
+
+                def IMPUTED(v, ex, enc=enc):
+                    return [int(x) for x in enc.get_matrix(list(v), existence=ex)[0]]
+
+                def MATRIX(v, ex, enc=enc):
+                    return _Mat(enc.get_matrix(list(v), existence=ex)[1])
+
+                def EDGES(m, mgr=mgr):
+                    return _Edges((mgr.matrix_gen if not lazy else mgr.encoder).get_conn_idx(m.a))
+                env = {'self': mgr, 'vector': vector, 'existence': None, 'IMPUTED': IMPUTED, 'MATRIX': MATRIX, 'EDGES': EDGES,
+                       'VIOLATED': (lambda m, mgr=mgr: bool(mgr._is_violated_matrix(m.a)))}
+
+                def call(mgr=mgr, vector=vector):
+                    r = getattr(mgr, method)(list(vector))
+                    if method == 'get_matrix':
+                        return (r[0], r[1], _Mat(r[2]))
+                    if method == 'get_conn_idx':
+                        return (r[0], r[1], None if r[2] is None else _Edges(r[2]))
+                    return r
+                made += 1
+                yield (env, call, {}, f'{type(mgr).__name__}({enc!s}).{method}({vector}) for src {src!r} tgt {tgt!r}')
+    return gen
+
+
+class _Mat:
+    """A connection matrix compared by content (numpy `==` is element-wise)."""
+    def __init__(self, a):
+        self.a = a
+
+    def __eq__(self, o):
+        import numpy as np
+        return isinstance(o, _Mat) and np.array_equal(np.asarray(self.a), np.asarray(o.a))
+
+    def __repr__(self):
+        return repr(getattr(self.a, 'tolist', lambda: self.a)())
+
+
+class _Edges(_Mat):
+    def __eq__(self, o):
+        return isinstance(o, _Edges) and list(self.a) == list(o.a)
+
+
+for _cls, _lazy in (('AssignmentManager', False), ('LazyAssignmentManager', True)):
+    for _m in ('get_matrix', 'correct_vector', 'get_conn_idx'):
+        DOMAIN[G + f'{_cls}.{_m}'] = _domain_manager(_m, _lazy)
